@@ -42,7 +42,7 @@ TEXTS = {
               "static analysis: abstract interpretation with phase splitting, registry/partial resolution"),
     "C05": _t("Dataflow rules on MaxGainGame and compute_exploitability: upper bound selected exactly for coalitions containing the player in both "
               "accessors (sibling agreement, polarity via decomposition into (column, mask) products), each Shapley term evaluated for the player of the "
-              "same max-gain game, all players, minus v(N); plus the Shapley rules of C06.",
+              "same max-gain game, all players, minus v(N); plus the Shapley rules of C06; observer purity (OBS): nothing reachable from GAP_FUNCTIONS calls a mutator of the game it measures.",
               "DESIGN.md section 4, C05",
               "the algebraic identity with the binomially weighted gap and the domination statement (paper algebra), float rounding.",
               "static analysis: provenance-term pattern rules, sibling agreement"),
@@ -75,7 +75,7 @@ TEXTS = {
     "C10": _t("Registry exhaustiveness: all 72 expanded GENERATORS entries resolve to callables accepting (n, rng) with partial-bound keywords being "
               "parameters; NumPy-integer flow: sources (Generator.integers, argmax, ...) to operands whose callee dispatches on isinstance(., int) "
               "(sinks derived from the package), interprocedural through keyword arguments; RNG-source discipline: every draw in every reachable "
-              "generator function comes from the generator parameter or a locally seeded RNG, and the parameter is handed on (3 documented exceptions).",
+              "generator function comes from the generator parameter or a locally seeded RNG, and the parameter is handed on (3 documented exceptions); a randomly drawn index only subscripts a sequence of exactly the drawn bound's length (N-idx); the instance seed is never rewritten and the instance generator is default_rng(seed) (SEED).",
               "DESIGN.md section 4, C10",
               "superadditivity / monotonicity of the produced values, v(empty) = 0, float64 dtype (numeric; the in-code asserts are runtime checks), behaviour of NetworkX generators at small n.",
               "static analysis: registry constant-folding, taint flow (source/sanitiser/sink), effect discipline"),
@@ -103,13 +103,13 @@ TEXTS = {
     "C14": _t("Index-space typing of regret.py: spaces COAL/PID/MID/RANK/RM are derived from allocation size expressions and from value provenance "
               "(rank->id table values are ids, Coalition(id).players are player ids, ...); obligation: allocated space contains every index space used "
               "on the array (2 documented exceptions listed in the evidence); save/load key, file, constructor-order and restored-state agreement; "
-              "plus-clipping after the update; fallback support zeroing in both strategy functions; ordering of coalition sets.",
+              "every artefact is written unconditionally by every save(); plus-clipping after the update; fallback support zeroing in both strategy functions; ordering of coalition sets.",
               "DESIGN.md section 4, C14",
               "distribution/support/orthogonality invariants after arbitrary iterations (numeric), float32 accumulation.",
               "static analysis: dimension (index-space) type inference, writer/reader agreement"),
     "C15": _t("Cancellation-guarded division: a divisor that is (or is read back from a game into which the function stored) a difference of game values "
               "must be guarded by a tolerance test, not an exact-zero test; norm-info captured before mutation; inverse agreement (subtract singletons then "
-              "divide vs multiply then add, tuple positions); view contract of the bound getters the in-place division relies on; dispatch over both game kinds.",
+              "divide vs multiply then add, tuple positions); view contract of the bound getters the in-place division relies on; dispatch over both game kinds; the graph game keeps no state besides its matrix (GG).",
               "DESIGN.md section 4, C15",
               "the [0,1] range, superadditivity of the result, round-trip error bounds (numeric).",
               "static analysis: value-provenance classification of divisors and guards, inverse pairing"),
@@ -121,7 +121,7 @@ TEXTS = {
               "static analysis: provenance-term pattern rules"),
     "C17": _t("Rules over every method of IncompleteCooperativeGame: column discipline derived from the scalar accessors (distinct, in width, every accessor "
               "its column, set_value writes value/value/1), guarded getters, masked bulk setters (not-known conjunct, right column), copy/negation "
-              "(fresh table, reads from self, swap, knowledge untouched), reset order, reveal/unreveal preconditions; package-wide who-may-write _values and "
+              "(fresh table, reads from self, swap, knowledge untouched), reset order, reveal/unreveal preconditions; the selection helper returns the column iff no coalitions are given, else the rows of the given ids in the given order; package-wide who-may-write _values and "
               "view-escape rule (derived view getters, in-place mutation sites, 2 allow-listed symbols).",
               "DESIGN.md section 4, C17",
               "the full operation-sequence semantics (a model of NumPy indexing would be needed), NaN vs None representation.",
@@ -135,12 +135,12 @@ TEXTS = {
               "static analysis: truth-table normal form of bitwise expressions, enumeration-shape and predicate-shape rules"),
     "C19": _t("Static path/dataflow rules over every site that writes, loads or rebuilds a saved result: skip-if-present guard dominates all effects, "
               "the serialised object is the loaded mapping plus exactly the new key, writer and reader of Output agree on keys, columns and dataclass fields "
-              "(tolist round trip), the four commands store positions 0/1 of what they computed, written content is installed, saver registry and dispatcher.",
+              "(tolist round trip), the four commands store positions 0/1 of what they computed, written content is installed, saver registry and dispatcher; the atomic-write rules A1-A5 of C20 (a failed save must not damage stored runs).",
               "DESIGN.md section 4, C19",
               "exact float/NaN round-trip through the json module, metadata stringification.",
               "static analysis: guard dominance, writer/reader key agreement, dependency closure of Output arguments"),
     "C20": _t("File-effect typestate over the call closure of SAVERS['data.json']: the destination is never opened for writing / truncated / copied onto / "
-              "unlinked; new content goes to a sibling temporary derived from the destination; the atomic replace comes after the temporary file is closed. "
+              "unlinked; new content goes to a sibling temporary derived from the destination; the atomic replace comes after the temporary file is closed, on the normal path only; no other function of the package renames, replaces or removes files (A5). "
               "With these every interruption point leaves the old or the complete new file - this is the property itself modulo rename(2).",
               "DESIGN.md section 4, C20",
               "atomicity of os.replace/rename(2) on one file system (trusted); power loss (no fsync required: the property speaks of process death).",
